@@ -18,6 +18,7 @@ type Config struct {
 	MaxSteps  int // instruction budget per path
 	MaxFrames int // call-depth budget per path
 	OrderMode bool
+	OrderBudget int
 	Trace     bool
 }
 
@@ -108,6 +109,7 @@ type Machine struct {
 	decided   map[int]bool
 	evalMemo  map[int]sym.Val
 	walk      int
+	orderBudget int
 	cyclicSeen bool
 	doms      map[string]*dom
 	tsMemo    map[int]sym.Val
@@ -136,6 +138,8 @@ func (m *Machine) resetPath(prefix []int32) {
 	m.st = sym.NewStore()
 	m.globals = map[*ssa.Global]*value{}
 	m.prefix = prefix
+	m.OrderMode = m.cfg.OrderMode
+	m.orderBudget = m.cfg.OrderBudget
 	m.decisions = m.decisions[:0]
 	m.pending = nil
 	m.pc = nil
